@@ -7,13 +7,37 @@ mod yaml;
 pub use ini::IniFormat;
 use jrsonnet_evaluator::{
 	function::builtin,
-	manifest::{escape_string_json, JsonFormat, YamlStreamFormat},
+	manifest::{escape_string_json, escape_string_json_buf, JsonFormat, YamlStreamFormat},
 	IStr, ObjValue, Result, Val,
 };
 pub use python::{PythonFormat, PythonVarsFormat};
 pub use toml::TomlFormat;
 pub use xml::XmlJsonmlFormat;
 pub use yaml::YamlFormat;
+
+/// JSON string escaping for formats which are stricter than JSON about raw characters:
+/// U+007F is not allowed unescaped in TOML basic strings, and YAML double-quoted scalars
+/// additionally reject or alter (NEL) unescaped C1 controls and U+FFFE/U+FFFF.
+/// The `\uXXXX` escape is understood by both formats.
+pub(crate) fn escape_string_strict_buf(value: &str, buf: &mut String) {
+	use std::fmt::Write;
+	fn needs_escape(c: char) -> bool {
+		matches!(c, '\u{7f}'..='\u{9f}' | '\u{fffe}' | '\u{ffff}')
+	}
+	if !value.contains(needs_escape) {
+		escape_string_json_buf(value, buf);
+		return;
+	}
+	let mut escaped = String::new();
+	escape_string_json_buf(value, &mut escaped);
+	for c in escaped.chars() {
+		if needs_escape(c) {
+			write!(buf, "\\u{:04x}", c as u32).unwrap();
+		} else {
+			buf.push(c);
+		}
+	}
+}
 
 #[builtin]
 pub fn builtin_escape_string_json(str_: IStr) -> Result<String> {
